@@ -304,6 +304,18 @@ def next_round(ck, probs_i, pops_i, probs_r, pops_r):
     return lines
 
 
+def shrink_creation(harness, line, key):
+    """a creation case reduced to the single interval that fails (same seed), if that still fails"""
+    w = line.split()
+    n = int(w[2])
+    cands = ["%s %s 1 %s %s" % (w[0], w[1], w[3 + 2 * i], w[4 + 2 * i]) for i in range(n)]
+    out, _ = pc.run_harness_resilient(harness, cands)
+    for l, ho in zip(cands, out):
+        if ho and not ho.startswith("CRASH") and any(k == key for k, _ in judge(l, ho)):
+            return l
+    return None
+
+
 # ----------------------------------------------------------------- run
 def execute(ck, harness, model, lines, hist):
     """run harness, replay its draws through the model, judge; returns the harness outputs"""
@@ -329,7 +341,9 @@ def execute(ck, harness, model, lines, hist):
             ck.add_diff({"line": l}, None, ho, what="harness rejected the case")
             continue
         for key, what in judge(l, ho):
-            ck.add_violation(key, what, {"cases": [l], "impl": ho, "model": mout.get(i)})
+            small = shrink_creation(harness, l, key) if op in ("gacreate", "decreate") else None
+            ck.add_violation(key, what, {"cases": [small or l], "found_with": l if small else None,
+                                         "impl": ho, "model": mout.get(i)})
         nt = nontrivial(l, ho)
         if nt:
             ck.nontriv(nt)
@@ -368,16 +382,24 @@ def run(ck):
 
     if ck.replay_path:
         rp = json.load(open(ck.replay_path))
-        execute(ck, harness, model, rp.get("cases", []), hist)
+        lines = rp.get("cases", [])
+        execute(ck, harness, model, [l for l in lines if not l.startswith("garun")], hist)
+        for l in [l for l in lines if l.startswith("garun")]:
+            ho = (pc.run_harness_resilient(harness, [l])[0][0] or "CRASH")
+            ck.count()
+            if ho.startswith("CRASH"):
+                ck.add_violation("garun:undefined-behaviour", "ga_search executes undefined behaviour", {"cases": [l], "impl": ho})
+            elif ho.startswith("BAD "):
+                ck.add_violation("ga_search:gene-out-of-range", "inside ga_search: " + ho[4:], {"cases": [l], "impl": ho})
     else:
         rng = ck.rng
-        T = 8 if ck.thorough else 1
+        T = 40 if ck.thorough else 1
         lens = [1, 2, 2, 3, 4, 5, 8, 13, 40] + [rng.randint(2, 40) for _ in range(6 * T)]
         probs_i = [int_ranges(rng, n) for n in lens for _ in range(2)]
         probs_r = [real_ranges(rng, n) for n in lens for _ in range(2)]
         pops_i = [[] for _ in probs_i]
         pops_r = [[] for _ in probs_r]
-        rounds = 6 if ck.thorough else 4
+        rounds = 8 if ck.thorough else 4
         cur = first_round(ck, probs_i, probs_r)
         for rd in range(rounds):
             lines = [l for l, _ in cur]
@@ -394,6 +416,39 @@ def run(ck):
             if ck.violations:
                 break
             cur = next_round(ck, probs_i, pops_i, probs_r, pops_r)
+        # in situ (implementation only, judged by the oracle): the operators as ga_search drives them
+        runs = []
+        for _ in range(12 * T):
+            n = rng.choice([2, 3, 5, 8, 20])
+            # at least one position must admit two values: recombination::base re-mutates a child that equals a parent
+            # until it differs, which never ends when no gene can change (a liveness matter outside this property)
+            rg = int_ranges(rng, n)
+            k = rng.randrange(n)
+            if all(hi - lo < 2 for lo, hi in rg):
+                lo = min(max(rg[k][0] - 7, I32_MIN), I32_MAX - 16)
+                rg[k] = (lo, lo + 16)
+            runs.append("garun %d %d %d %s %s %d %s" % (rng.getrandbits(32), rng.randint(2, 8), rng.choice([6, 10, 30]),
+                                                        hx(rng.choice([0.0, 0.5, 0.9, 1.0])), hx(rng.choice([0.0, 0.04, 0.5, 1.0])),
+                                                        n, " ".join("%d %d" % r for r in rg)))
+        import subprocess
+        try:
+            rout, rcr = pc.run_harness_resilient(harness, runs, timeout=300)
+        except subprocess.TimeoutExpired:
+            rout, rcr = ["TIMEOUT"] * len(runs), {}
+            ck.notes.append("in-situ ga_search runs did not finish within 300 s (not judged)")
+        for i, (l, ho) in enumerate(zip(runs, rout)):
+            ck.count()
+            hist["garun"] = hist.get("garun", 0) + 1
+            if ho is None or ho.startswith("CRASH"):
+                ck.add_violation("garun:undefined-behaviour", "ga_search executes undefined behaviour (sanitizer report)",
+                                 {"cases": [l], "impl": ho, "sanitizer": rcr.get(i, "")[-1500:]})
+            elif ho.startswith("BAD "):
+                ck.add_violation("ga_search:gene-out-of-range", "inside ga_search: " + ho[4:], {"cases": [l], "impl": ho})
+            elif ho.startswith("OK "):
+                if int(ho.split()[2]) > 0:
+                    ck.nontriv(("garun", l))
+            elif ho != "TIMEOUT":
+                ck.add_diff({"line": l}, None, ho, what="harness rejected the case")
         ck.coverage["rounds_of_operator_sequences"] = rounds
         ck.coverage["problems"] = {"integer": len(probs_i), "real": len(probs_r), "lengths": sorted(set(lens))}
     ck.coverage["per_operation"] = hist
